@@ -222,6 +222,15 @@ def rterm(x):
             return PI
         if x == math.e:
             return E
+        # float constants that are small rational multiples of pi or 1/pi (e.g. 2*np.pi**(-1)) keep
+        # their symbolic meaning instead of a rounded decimal
+        for p in (1, 2, 3, 4):
+            for q in (1, 2, 3, 4, 180):
+                for sgn in (1, -1):
+                    if x == sgn * p * math.pi / q or x == sgn * (p / q) * math.pi:
+                        return z3.RealVal(sgn * p) * PI / z3.RealVal(q)
+                    if x == sgn * p / (q * math.pi) or x == sgn * (p / q) * math.pi ** (-1) or x == sgn * (p / q) / math.pi:
+                        return z3.RealVal(sgn * p) / (z3.RealVal(q) * PI)
         return z3.RealVal(repr(x))
     if isinstance(x, z3.ArithRef):
         return z3.ToReal(x) if x.is_int() else x
@@ -412,6 +421,7 @@ class _Num:
         return self
 
     def astype(self, dt, *a, **k):
+        dt = {"sym_float": float, "sym_int": int}.get(getattr(dt, "__name__", None), dt)
         if dt in (float, np.float64, "float"):
             return SymReal(rterm(self))
         if dt in (int, np.int64, np.int32, "int"):
